@@ -53,8 +53,8 @@ inductive REv
   | kerr (code : Nat) (offsets : Option (Int × Int))
   /-- `read`: io.ErrNoProgress / any other non-Kafka error (time-out, reset, …) -/
   | ioErr
-  /-- `read`: context.Canceled (sendMessage lost against ctx.Done) -/
-  | ctxCanceled
+  /-- `read`: context.Canceled (sendMessage lost against ctx.Done) after the messages `d` of the round had been sent on -/
+  | ctxCanceled (d : List Rec)
   /-- `read`: errUnknownCodec -/
   | unknownCodec
   deriving Repr
@@ -129,7 +129,7 @@ def rstep (cfg : RCfg) (s : RR) (e : REv) : RR :=
       | .cutAfter d => toTop (pushMsgs s d)
       | .kerr code offs => onKerr s code offs
       | .ioErr => toTop s
-      | .ctxCanceled => { s with phase := .stopped }
+      | .ctxCanceled d => { pushMsgs s d with phase := .stopped }
       | .unknownCodec => toTop { s with errors := s.errors ++ [0] }
       | _ => s
 
